@@ -151,6 +151,26 @@ def random_record(rng, s, j, dt=None, n=None, t0=None, gaps=None):
     return build_record(rng, s, j, dt, n, rc, ic, t0=t0, gaps=gaps)
 
 
+def layout_record(rng, s, j, dt=None, t0=None, gaps=None, n=None):
+    """Dense contention: disjoint heavy-rain runs and disjoint fast-rise runs laid out independently on
+    the index line (lengths 1-4, separations 1-3), so that rises overlap several bursts and bursts
+    several rises, with displacement chains in the arbitration."""
+    dt = dt or rng.choice(STEPS)
+    n = n or rng.randint(8, 36)
+
+    def runs():
+        out, i = set(), rng.randint(0, 2)
+        while i < n:
+            k = rng.randint(1, 4)
+            out |= set(range(i, min(i + k, n)))
+            i += k + rng.randint(1, 3)
+        return out
+    st, ri = runs(), runs()
+    rc = ["heavy" if i in st else rng.choice(["light", "light", "dry"]) for i in range(n)]
+    ic = ["fast" if i in ri else rng.choice(["slow", "flat", "fall"]) for i in range(n)]
+    return build_record(rng, s, j, dt, n, rc, ic, t0=t0, gaps=gaps)
+
+
 def build_record(rng, s, j, dt, n, rc, ic, t0=None, gaps=None, pre=None, post=None):
     jd = j * (dt / 3600.0)
     if t0 is None:
